@@ -29,8 +29,8 @@ BOUNDS = {
     "unlinked, two groups), histories x0, x1, [fault], x0 and fresh single-point optimizers; optimize() with 2 evaluations",
     "thorough": "12 configurations, histories of 4 evaluations with a fault in between, optimize() with 3 evaluations",
 }
-OUTSIDE = ("thread schedules of the compiled numba kernels (see prange race-freedom check in this harness' "
-           "race configurations), process freshness, real scipy iterates")
+OUTSIDE = ("process freshness; real scipy iterates; thread schedules are covered only through race-freedom of the prange loops "
+           "(two-iteration abstraction over the kernels' current source), not by exploring interleavings")
 
 FLOAT_SELFCHECK = True
 
@@ -290,7 +290,89 @@ def _run_inputs(cfg, rec):
 
 # ------------------------------------------------------------------------------------------------ prange race freedom
 def race_configs(tier):
-    return []
+    return [{"name": "prange-race-freedom", "kind": "race", "repeats": 40 if tier == "quick" else 300}]
+
+
+def _run_race(cfg, rec):
+    """Two-iteration abstraction of every prange loop of every parallel=True kernel in the current source."""
+    from harness import race
+
+    kernels = race.collect_kernels()
+    results = race.analyze(kernels)
+    rec.assume_note("numba semantics: a prange loop without cross-iteration conflicts gives the sequential result for every "
+                    "schedule and thread count; array-expression statements are parallelised race-free by numba itself; "
+                    "prange inside a function jitted with parallel=False is sequential")
+    rec.functions |= {f"{k.path.replace('/repo/', '')}:{k.name}(parallel={k.parallel})" for k in kernels.values()}
+    # one pseudo-path per analysed loop so that the evidence counts are meaningful
+    rec.stats.paths += max(1, len(results))
+    for r in results:
+        rec.obligations += 1
+        rec.stats.branch_queries += r["queries"]
+        name = "no two iterations of a prange loop touch a common array cell (for all sizes and inner indices)"
+        if r["unknown"]:
+            rec.inconclusive.append(f"race analysis of {r['kernel']} loop {r['loop']}: {r['unknown'][:2]}")
+        elif r["races"]:
+            rec.stats.prove["sat"] += 1
+            w = r["races"][0]
+            rec.candidates.append((f"race:{r['kernel']}:{w['array']}", name,
+                                   {"env": {}, "race": {"kernel": r["kernel"], "file": r["file"], "loop": r["loop"], "witness": w}}))
+        else:
+            rec.stats.prove["unsat"] += 1
+            rec.proved[name] = rec.proved.get(name, 0) + 1
+        rec.sample({"kernel": r["kernel"], "loop": r["loop"], "queries": r["queries"], "races": len(r["races"])})
+    rec.witnessed += 1
+
+
+def _race_replay(data):
+    """Stress replay: the compiled kernels through the library's matrix implementations, 1 thread vs all threads."""
+    import types
+
+    import numba
+
+    import glotaran.builtin.megacomplexes.decay.util as du
+    from glotaran.builtin.megacomplexes.decay.irf import IrfMultiGaussian
+    from glotaran.builtin.megacomplexes.decay.irf import IrfSpectralMultiGaussian
+    from glotaran.parameter import Parameter
+
+    def par(v):
+        return Parameter(label="p", value=float(v))
+
+    rng = np.random.default_rng(0)
+    times = np.linspace(-1, 20, 400)
+    rates = np.array([0.05, 0.3, 1.1, 2.5, 7.0])
+    gaxis = np.linspace(400, 700, 24)
+    irf3 = IrfMultiGaussian(label="i", center=[par(0.1), par(0.3), par(0.5)], width=[par(0.2), par(0.4), par(0.6)],
+                            scale=[par(1.0), par(0.7), par(0.4)], normalize=True)
+    irfd = IrfSpectralMultiGaussian(label="i", center=[par(0.1), par(0.3)], width=[par(0.2), par(0.4)], scale=[par(1.0), par(0.5)],
+                                    dispersion_center=par(550.0), center_dispersion_coefficients=[par(0.01)],
+                                    width_dispersion_coefficients=[], normalize=True)
+
+    def scenarios():
+        m = np.zeros((times.size, rates.size))
+        du.decay_matrix_implementation_index_independent(m, rates, gaxis, times, types.SimpleNamespace(irf=irf3))
+        yield "decay, 3-Gaussian IRF, index independent", m
+        m = np.zeros((gaxis.size, times.size, rates.size))
+        du.decay_matrix_implementation_index_dependent(m, rates, gaxis, times, types.SimpleNamespace(irf=irfd))
+        yield "decay, dispersed 2-Gaussian IRF, index dependent", m
+        m = np.zeros((times.size, rates.size))
+        du.decay_matrix_implementation_index_independent(m, rates, gaxis, times, types.SimpleNamespace(irf=None))
+        yield "decay, no IRF", m
+
+    nmax = numba.config.NUMBA_NUM_THREADS
+    numba.set_num_threads(1)
+    ref = {n: m.copy() for n, m in scenarios()}
+    numba.set_num_threads(nmax)
+    try:
+        for rep in range(int(data.get("cfg", {}).get("repeats", 40))):
+            for n, m in scenarios():
+                if not np.array_equal(m, ref[n]):
+                    d = float(np.max(np.abs(m - ref[n])))
+                    return True, (f"race {data.get('race', {}).get('kernel')}: scenario '{n}' evaluated with {nmax} numba threads differs from the "
+                                  f"single-thread result (max abs difference {d:.3e}, repeat {rep})")
+    finally:
+        numba.set_num_threads(nmax)
+    del rng
+    return False, f"no difference between 1 and {nmax} threads in the stress scenarios"
 
 
 def run_config(cfg, rec):
@@ -308,6 +390,8 @@ def run_config(cfg, rec):
         _run_history(cfg, rec)
     elif cfg["kind"] == "inputs":
         _run_inputs(cfg, rec)
+    elif cfg["kind"] == "race":
+        _run_race(cfg, rec)
 
 
 # ------------------------------------------------------------------------------------------------ float side
@@ -356,6 +440,8 @@ def concrete(cfg, env):
 
 def replay(data):
     cfg = data["cfg"]
+    if cfg["kind"] == "race":
+        return _race_replay(data)
     for env in (c02.salted("r1"), c02.salted("r2")):
         if cfg["kind"] == "history":
             try:
